@@ -17,6 +17,7 @@ Section Arena.
   | NUnary (op : opcode) (a : nat)
   | NBinary (op : opcode) (a b : nat)
   | NOracle (k : nat)                 (* opaque oracle number k *)
+  | NOracleT (x y z u : nat)          (* TransformedOracleClause: oracle u at (x,y,z) *)
   | NRemap (x y z t : nat)
   | NApply (v e t : nat)              (* v: id of a VAR_FREE node *)
   | NInvalid.
@@ -33,15 +34,17 @@ Section Arena.
     | NUnary op _ => op
     | NBinary op _ _ => op
     | NOracle _ => ORACLE
+    | NOracleT _ _ _ _ => ORACLE
     | NRemap _ _ _ _ | NApply _ _ _ | NInvalid => INVALID
     end.
 
   (* every child index is older than the node itself *)
   Definition node_wf (len : nat) (n : node) : Prop :=
     match n with
-    | NUnary _ a => a < len
-    | NBinary _ a b => a < len /\ b < len
+    | NUnary op a => a < len /\ args op = Some 1
+    | NBinary op a b => a < len /\ b < len /\ args op = Some 2
     | NRemap x y z t => x < len /\ y < len /\ z < len /\ t < len
+    | NOracleT x y z t => x < len /\ y < len /\ z < len /\ t < len
     | NApply v e t => v < len /\ e < len /\ t < len
     | _ => True
     end.
